@@ -151,6 +151,10 @@ func (maps *trackedMaps) processUnfiltered(ctx context.Context, ef *Filter, filt
 	}
 
 	for _, m := range maps.unfiltered() {
+		if m.filtered {
+			// filtered in the meantime, as a map nested in one of the others
+			continue
+		}
 		// we will mark the map as filtered at the bottom of this loop.
 		var v reflect.Value
 		switch {
@@ -301,7 +305,13 @@ func (maps *trackedMaps) processUnfiltered(ctx context.Context, ef *Filter, filt
 				v.SetMapIndex(key, f)
 
 			case fkind == reflect.Map:
-				newMaps, err := newTrackedMaps(&tMap{value: field})
+				// a nested map may already be tracked (its fields tagged via nested
+				// pointers): keep its record of the fields that have been filtered.
+				nested := &tMap{value: field}
+				if tracked, ok := maps.getTracked(field.Pointer()); ok {
+					nested = tracked
+				}
+				newMaps, err := newTrackedMaps(nested)
 				if err != nil {
 					return fmt.Errorf("%s: unable to filter map: %w", op, err)
 				}
